@@ -173,6 +173,15 @@ async def scenario(kind, labels, expected, clients_kind, repo_src):
     pool = TaskPool(pool_size=3, name="srvpool")
     tmp = tempfile.mkdtemp(prefix="verif-c19-")
     path = os.path.join(tmp, "s.sock")
+    old_cwd = os.getcwd()
+    import zlib as _z
+    if kind == "unix" and _z.crc32((" ".join(labels) + "|cwd").encode()) % 2 == 0:
+        # a *relative* socket path used from a deep working directory: its absolute form is
+        # longer than what AF_UNIX accepts (107 bytes), the relative one is fine
+        deep = os.path.join(tmp, "d" * 60, "e" * 60)
+        os.makedirs(deep)
+        os.chdir(deep)
+        path = "s.sock"
     env = dict(os.environ)
     env["PYTHONPATH"] = repo_src
     # unusual but legal server kwargs, passed through to asyncio.start_(unix_)server: with
@@ -306,6 +315,7 @@ async def scenario(kind, labels, expected, clients_kind, repo_src):
             task.cancel()
             with contextlib.suppress(BaseException):
                 await asyncio.wait({task}, timeout=0.5)
+        os.chdir(old_cwd)
         shutil.rmtree(tmp, ignore_errors=True)
     return lines, notes
 
